@@ -20,10 +20,10 @@ vars == <<st, l, hl>>
 
 NoHullRec == [some |-> FALSE]
 
-TraceInit == st = [o \in Objs |-> NoState] /\ l = 1 /\ hl = [o \in Objs |-> NoHullRec]
+TraceInit == st = [o \in Objs |-> NoState] /\ l = 1 /\ hl = [o \in Objs |-> NoHullRec] /\ TLCSet(8, 0)
 
 Ev    == Rec[l]
-IsEvent(e) == l <= Len(Rec) /\ Rec[l].ev = e /\ l' = l + 1
+IsEvent(e) == l <= Len(Rec) /\ Rec[l].ev = e /\ l' = l + 1 /\ TLCSet(8, l)
               /\ Chk("C19.panic", ~Rec[l].panic)
               /\ Chk("C19.timeout", ~Rec[l].timeout)
 
